@@ -99,6 +99,11 @@ def run(chk, repo):
         sv = G.find_calls(f.node, 'save_canonical_peptides')
         ok = len(cp) == 1 and len(pc) == 1 and len(sv) == 1
         detail = ''
+        if len(pc) == 1 and len(sv) == 1 and (not cp or any(k.arg is None for k in pc[0].keywords)):
+            chk.undecided('C12.a', f"{f.name}: pool computed with the parameters it is registered under", f.where,
+                          'the registered CleavageParams is not built by a constructor call in this function, or the pool call receives `**<expression>`: '
+                          'the parameters of the two are not visible side by side', key=q + '::computed==registered', fn=f.qual)
+            continue
         if ok:
             c = cp[0].value
             for p in dig:
